@@ -3,6 +3,20 @@ between Model/Cache.lean (driver drv_c09) and the real LRUCache / CachedMatrix."
 import os, re
 from vlib import core
 
+TRUST = ("Lean 4.33 kernel; axioms at most propext/Classical.choice/Quot.sound (audited per run by #audit_module); "
+         "hand-written model tied to the C++ by the correspondence harness (differential, generator-bounded); ")
+MANIFEST = dict(
+  text=("Theorems (Props/C09.lean) for every finite history of valid CachedMatrix operations, every size and capacity: "
+        "cached/returned/storage-copied entries equal the base matrix under the current permutation, size accounting, "
+        "capacity bound, LRU list = cached lines, two most recent rows survive a third fetch iff capacity allows "
+        "(with a decide-checked witness for the converse). The model (Model/Cache.lean) is tied to the real "
+        "LRUCache/CachedMatrix by an exact line-by-line correspondence over random histories (double and float caches) "
+        "under ASan/UBSan, plus an independent in-harness property oracle."),
+  note=TRUST + "memory safety of the real object code is runtime evidence (ASan/UBSan over the generated histories), the theorem is about the model; "
+       "wrapper matrices (precomputed, regularised, modified ...) not yet covered.",
+  technique="Lean 4 invariant proof by induction over operation histories + differential correspondence with the C++ (ASan/UBSan)",
+  design="§6 C09")
+
 FINISH = dict(level="proof",
               rule="histories of CachedMatrix ops (row/rows/entry/flip/maxidx/clear) and raw LRUCache ops "
                    "(get/resize/mark/swap) from one SplitMix64 stream; a case is non-trivial if it evicts, "
